@@ -112,7 +112,7 @@ pub fn emf_rates() -> Vec<f32> {
     v
 }
 
-pub const OCCURRENCES: [u64; 6] = [1, 1, 3, 0, 1000, 1];
+pub const OCCURRENCES: [u64; 7] = [1, 1, 3, 0, 1000, 1, 1];
 
 fn emf_entry() -> EntryD {
     let m = |obs: Vec<Obs>| ValD::Metric { obs, unit: UnitD::Count, dims: vec![], flag: FlagD::None };
@@ -121,6 +121,8 @@ fn emf_entry() -> EntryD {
             OpD::Timestamp(1_700_000_000_000_000_000),
             OpD::Value("D".into(), m(vec![Obs::U(7), Obs::F(2.5), Obs::R(9.0, 3), Obs::R(0.0, 0), Obs::R(500.0, 1000)])),
             OpD::Value("S".into(), m(vec![Obs::U(1)])),
+            // a single occurrence in the repeated form, alone in its metric
+            OpD::Value("L".into(), m(vec![Obs::R(4.0, 1)])),
             OpD::Value("Text".into(), ValD::Str("x".into())),
         ],
     }
@@ -185,7 +187,7 @@ pub fn emf_public_path(st: &mut ESt) {
                 };
                 let mut counts: Vec<u64> = Vec::new();
                 let mut bad = None;
-                for name in ["D", "S"] {
+                for name in ["D", "S", "L"] {
                     match recs[0].members.iter().find(|(n, _)| n == name) {
                         Some((_, MemberP::Dist(d))) => for (_, c) in d {
                             match c.parse::<u64>() { Ok(c) => counts.push(c), Err(_) => bad = Some(format!("count {c:?} of {name} is not a u64")) }
